@@ -6,6 +6,7 @@ import (
 	"sync"
 
 	"github.com/getlantern/goexpr"
+	"github.com/getlantern/zenodb/common"
 	"github.com/getlantern/zenodb/core"
 	"github.com/getlantern/zenodb/sql"
 )
@@ -61,7 +62,15 @@ func planSubQueries(opts *Opts, query *sql.Query) (func(ctx context.Context) ([]
 					mx.Unlock()
 					return true, nil
 				}
-				_, err := sqPlan.Iterate(ctx, core.FieldsIgnored, onRow)
+				md, err := sqPlan.Iterate(ctx, core.FieldsIgnored, onRow)
+				if err == nil {
+					// A subquery that ran on a cluster and did not hear from every
+					// partition yields an incomplete list; the outer query would then
+					// silently return too little.
+					if stats, ok := md.(*common.QueryStats); ok && stats != nil && stats.NumSuccessfulPartitions < stats.NumPartitions {
+						err = fmt.Errorf("subquery %v is incomplete, missing partitions: %v", sq.SQL, stats.MissingPartitions)
+					}
+				}
 
 				dims := make([]interface{}, 0, len(uniques))
 				if err == nil || err == core.ErrDeadlineExceeded {
